@@ -17,6 +17,8 @@ CONSTANTS Clients,     \* set of client ids
           Addr,        \* [Clients -> 0..2^32-1]
           SentBits,    \* set of source prefix lengths a client may send; 0 = no ECS option
           Scopes,      \* set of SCOPE values the authority may return
+          Echoes,      \* what subnet the authority's option echoes: 0 = the one it was sent (RFC 7871 7.3: FAMILY,
+                       \* SOURCE PREFIX-LENGTH and ADDRESS must match the query); k > 0 = client k's subnet instead
           FwdMax,      \* policy: forward at most this many bits
           Floor,       \* policy: min_scope (stored scope no more specific than this)
           Enabled,     \* policy enabled
@@ -24,7 +26,7 @@ CONSTANTS Clients,     \* set of client ids
 
 VARIABLES scoped,    \* set of [base, bits, gen]
           shared,    \* 0 or gen of the entry under the shared key
-          gens,      \* sequence of upstream exchanges: [fwdBase, fwdBits, scope]  (ghost + oracle)
+          gens,      \* sequence of upstream exchanges: [fwdBase, fwdBits, scope, echoBase]  (ghost + oracle)
           n,
           last       \* last client-visible outcome (hidden by VIEW)
 
@@ -40,6 +42,11 @@ FwdBits(sent) == IF ~Enabled \/ sent = 0 THEN 0 ELSE Min(sent, FwdMax)
 (* ClampScope *)
 StoredBits(scope, fwdBits) == Min(Min(scope, fwdBits), Floor)
 
+(* A reply whose subnet option does not echo the query's MUST be dropped (RFC 7871 7.3 / 11.2).  As built
+   (DropsMismatch overridden to FALSE in MC_Ecs_echo_asbuilt.cfg, which must FAIL) nothing compares the two:
+   ecs.ReadResponseScope builds the scope from the ECHOED address and the cache keys the answer on it. *)
+DropsMismatch == TRUE
+
 Init == scoped = {} /\ shared = 0 /\ gens = <<>> /\ n = 0 /\ last = [kind |-> "init"]
 
 (* scopedLookup: longest stored prefix containing the client's forwarded prefix *)
@@ -48,7 +55,7 @@ Probe(base, bits) ==
   IN IF cand = {} THEN 0
      ELSE (CHOOSE e \in cand : \A f \in cand : f.bits <= e.bits).gen
 
-Query(c, sent, scope) ==
+Query(c, sent, scope, echo) ==
   /\ n < MaxSteps
   /\ LET fb == FwdBits(sent)
          base == Pfx(Addr[c], fb)
@@ -62,15 +69,23 @@ Query(c, sent, scope) ==
         ELSE
           LET g == Len(gens) + 1
               sc == IF fb = 0 THEN 0 ELSE scope      \* an authority that saw no ECS returns none
-          IN /\ gens' = Append(gens, [fwdBase |-> base, fwdBits |-> fb, scope |-> sc])
-             /\ IF sc = 0
-                  THEN shared' = g /\ UNCHANGED scoped
-                  ELSE scoped' = scoped \cup {[base |-> Pfx(base, StoredBits(sc, fb)), bits |-> StoredBits(sc, fb), gen |-> g]}
-                       /\ UNCHANGED shared
-             /\ last' = [kind |-> "miss", c |-> c, sent |-> sent, gen |-> g, scope |-> sc, fwdBits |-> fb]
+              eb == IF fb = 0 \/ echo = 0 THEN base ELSE Pfx(Addr[echo], fb)   \* the subnet its option names
+              mismatch == eb # base
+          IN IF mismatch /\ DropsMismatch THEN
+               \* the exchange happened, its reply is not used: nothing stored, the client is not served from it
+               \* (it leaves no trace in the cache state, so it is not numbered among the exchanges either)
+               /\ last' = [kind |-> "dropped", c |-> c, sent |-> sent, scope |-> sc, fwdBits |-> fb, fwdBase |-> base, echoBase |-> eb]
+               /\ UNCHANGED <<scoped, shared, gens>>
+             ELSE
+               /\ gens' = Append(gens, [fwdBase |-> base, fwdBits |-> fb, scope |-> sc, echoBase |-> eb])
+               /\ IF sc = 0
+                    THEN shared' = g /\ UNCHANGED scoped
+                    ELSE scoped' = scoped \cup {[base |-> Pfx(eb, StoredBits(sc, fb)), bits |-> StoredBits(sc, fb), gen |-> g]}
+                         /\ UNCHANGED shared
+               /\ last' = [kind |-> "miss", c |-> c, sent |-> sent, gen |-> g, scope |-> sc, fwdBits |-> fb]
   /\ n' = n + 1
 
-Next == \E c \in Clients, s \in SentBits, sc \in Scopes : Query(c, s, sc)
+Next == \E c \in Clients, s \in SentBits, sc \in Scopes, e \in Echoes : Query(c, s, sc, e)
 Spec == Init /\ [][Next]_vars
 
 (* ------------------------------ properties ---------------------------- *)
@@ -88,6 +103,14 @@ ScopedAudience ==
            b == StoredBits(g.scope, g.fwdBits)
        IN /\ last'.sent # 0                                  \* a client without ECS never gets a scoped answer
           /\ Pfx(Addr[last'.c], b) = Pfx(g.fwdBase, b)]_vars
+
+(* the same clause on the exchange itself: the client that asked is served the answer only if it lies inside the
+   scope the authority DECLARED (the subnet its option names, as far as the scope and the forwarded bits reach) *)
+DeclaredScopeAudience ==
+  [][(last'.kind = "miss" /\ gens'[last'.gen].scope # 0) =>
+       LET g == gens'[last'.gen]
+           b == Min(g.scope, g.fwdBits)
+       IN Pfx(g.fwdBase, b) = Pfx(g.echoBase, b)]_vars
 
 (* never stored more specific than what was forwarded or than the floor *)
 NeverTooSpecific == \A e \in scoped : e.bits <= Floor /\ e.bits <= gens[e.gen].fwdBits /\ e.bits >= 1
